@@ -321,6 +321,10 @@ def run(req, ctx):
                 except Exception as e:
                     out = outcome_of_exc(e)
                     current.pop(j, None)
+                    # nothing is injected in this engine: the translation exists as text (the class-object route works),
+                    # so a write that raises makes the file route unusable where the other one is fine
+                    mism.append({'key': 'write-translation-raised', 'op': i, 'path': j, 'variant': op['wb'], 'cells': [],
+                                 'observed': {'write': out}, 'expected': {'write': ['ok']}, 'stale_cache_entry': False})
                 if prev is not None and out[0] == 'ok':
                     st = os.stat(paths[j])
                     hdr = _pyc_header(paths[j])
